@@ -24,7 +24,7 @@ def units(tier):
     return bulkids.units() + walk.units() + useractions.units(UA_ALL)
 
 
-def bounded(tier, seed):
+def _bounded(tier, seed):
     from pyvc.native_bridge import bounded_walk
     return [bounded_walk(tier, "walk,bulk", "walk-and-bulk-assignment",
                          "real _handle_update_track_ids vs contract K1 for every start node, every track-id assignment over 3 values "
@@ -34,3 +34,8 @@ def bounded(tier, seed):
 def witness(label, failure, seed):
     from pyvc.native_bridge import tracks_witness
     return tracks_witness("C04", label, failure, seed)
+
+
+def bounded(tier, seed):
+    from ._common import model_checks
+    return _bounded(tier, seed) + model_checks(tier, "networkx", shape=True, seed=seed)
